@@ -67,22 +67,15 @@ example : srcSubsOf (run 6000 [progRp demoRp] {}) = 1 ∧ ConnM.sourceSubscripti
 example : ∃ w, FinalRp demoRp w := let ⟨w, h, _⟩ := replayConn_refines demoRp (by decide); ⟨w, h⟩
 
 /-
-NOT DONE — the COLD synchronous source (`ConnM.Src.cold script`: the script is emitted inside `source.subscribe`,
-i.e. inside `connect()` for publish and inside the first subscriber's `on_subscribe` hook for ref_count / replay —
-the case where `connecting` / `cancelled` of ref_count.rs:36-37 matter).
-Wanted:   theorem publish_refines_cold (script) (cs) (hwf : wfC 0 cs = true) :
-            ∃ w, FinalPc script cs w ∧ AgreesC' w (ConnM.run .publish (.cold script) cs)      (same for the other kinds)
-          with the machine source `fun o => forEach script (fun ev => evProg ev o .done)` (an `obsvNew` of that closure)
-          and `srcSubsOf` read from a probe / counter cell instead of H's serial.
-Available: everything used inside a hook already works under `SlotReads` guards and with a pending (`pend`) /
-          unstored (`unst`) subscriber: `emitS_spec`, `emitL_spec`, `connect_pre`-style rules, `srcUnsub*_spec`,
-          `onSubHook*_spec`, `onUnsubHook*_spec` are stated for arbitrary `Hd`, `pend`, `unst`.
-Missing:  (1) `connect_pre` for a source that emits: the loop `forEach script (evProg · o)` over the fresh source
-          observer = `script.foldl (connRecv k · m)` (the single-observer instance of `hotLoop`'s step);
-          (2) the hook lemmas re-proved with that `connectSource` (they then also change `st.sub`, so `URc`/`URr`
-          must be re-established after the loop instead of framed);  (3) for replay, `subscribeTail_spec` must take
-          the hand-over history from the state AFTER the hook (items emitted during the hook are replayed to the
-          first subscriber — `ConnM` models this: `SubjM.subscribeB` runs after `on_subscribe` returned).
+The COLD synchronous source (`ConnM.Src.cold script`: the script is emitted inside `source.subscribe`, i.e. inside
+`connect()` for publish and inside the first subscriber's `on_subscribe` hook for ref_count / replay) is done in
+C13RefCold*.lean: `publish_refines_cold`, `refCount_refines_cold`, `replayConn_refines_cold` (summary in
+C13RefColdAll.lean).  For that, this development was made independent of the source where it could be:
+`Touch` also says that the probe records of the trace are untouched; which source sits behind observable 0 is a field
+of `ConnsPart` (`obsv`) instead of the `Extras*`; the users' side of the replay wrappers is in `URr.patchUser /
+storeUser / registerUser / held_swap / ready`; and `subscribe` / `unsubscribe` of a test user on the replay connectable
+are proved once for any relation family `RFam` (`unsubscribeG_spec`, `subscribeFrontG`, `subscribeTailG_spec`), the
+hot relation `RelRp` being the instance `hotFam`.
 -/
 
 #print axioms replayConn_refines
